@@ -243,9 +243,13 @@ impl FloatEncoding for f32 {
                 round_bits = 0; // not rounding is required
                 mantissa <<= shift as u32;
             } else {
-                let shifted = mantissa << (30 + shift) as u32;
-                round_bits = (shifted >> 28 & 0b110) as u8 | ((shifted & 0xfffffff) != 0) as u8;
-                mantissa >>= (-shift) as u32;
+                // 1 <= -shift <= 32: lowest kept bit, half bit, sticky of everything below
+                let (wide, s) = (mantissa as u64, (-shift) as u32);
+                let kept = wide >> s;
+                let half = (wide >> (s - 1)) & 1;
+                let sticky = wide & ((1u64 << (s - 1)) - 1) != 0;
+                round_bits = ((kept & 1) << 2 | half << 1) as u8 | sticky as u8;
+                mantissa = kept as u32;
             }
 
             // then compose the bit representation of f32
@@ -266,7 +270,7 @@ impl FloatEncoding for f32 {
             bits = (sign << 31) | (exponent << 23) | (mantissa >> 9);
 
             // get the low bit of mantissa and two extra bits, and adding round-to-even adjustment
-            round_bits = ((mantissa >> 7) & 0b110) as u8 | ((mantissa & 0x7f) != 0) as u8;
+            round_bits = ((mantissa >> 7) & 0b110) as u8 | ((mantissa & 0xff) != 0) as u8;
         };
 
         if round_bits & 0b11 == 0 {
@@ -364,10 +368,13 @@ impl FloatEncoding for f64 {
                 round_bits = 0; // not rounding is required
                 mantissa <<= shift as u32;
             } else {
-                let shifted = mantissa << (62 + shift) as u64;
-                round_bits =
-                    (shifted >> 60 & 0b110) as u8 | ((shifted & 0xfffffffffffffff) != 0) as u8;
-                mantissa >>= (-shift) as u32;
+                // 1 <= -shift <= 64: lowest kept bit, half bit, sticky of everything below
+                let (wide, s) = (mantissa as u128, (-shift) as u32);
+                let kept = wide >> s;
+                let half = (wide >> (s - 1)) & 1;
+                let sticky = wide & ((1u128 << (s - 1)) - 1) != 0;
+                round_bits = ((kept & 1) << 2 | half << 1) as u8 | sticky as u8;
+                mantissa = kept as u64;
             }
 
             // then compose the bit representation of f64
@@ -388,7 +395,7 @@ impl FloatEncoding for f64 {
             bits = (sign << 63) | (exponent << 52) | (mantissa >> 12);
 
             // get the low bit of mantissa and two extra bits, and adding round-to-even adjustment
-            round_bits = ((mantissa >> 10) & 0b110) as u8 | ((mantissa & 0x3ff) != 0) as u8;
+            round_bits = ((mantissa >> 10) & 0b110) as u8 | ((mantissa & 0x7ff) != 0) as u8;
         };
 
         if round_bits & 0b11 == 0 {
